@@ -13,6 +13,7 @@ import (
 	"io/ioutil"
 	"math/rand"
 	"os"
+	"runtime"
 	"strings"
 	"time"
 
@@ -221,6 +222,18 @@ func regexpQuote(s string) string {
 	return "^" + b.String()
 }
 
+// watchdog ends the process (exit status 7, all goroutine stacks on stderr)
+// when one play or case does not end: a deadlock inside the play cannot be
+// recovered from in-process.  The check reports the play left in current.json.
+func watchdog(d time.Duration) *time.Timer {
+	return time.AfterFunc(d, func() {
+		buf := make([]byte, 1<<20)
+		n := runtime.Stack(buf, true)
+		fmt.Fprintf(os.Stderr, "c14 harness: play does not end within %s\n%s\n", d, buf[:n])
+		os.Exit(7)
+	})
+}
+
 func raceLogSize(prefix string) (string, int64) {
 	name := fmt.Sprintf("%s.%d", prefix, os.Getpid())
 	fi, err := os.Stat(name)
@@ -250,7 +263,9 @@ func main() {
 		vh.WriteJSON(*out, "cases.json", plays)
 		_, before := raceLogSize(*raceLog)
 		t0 := time.Now()
+		wd := watchdog(100 * time.Second)
 		p.Err, p.Narration = cmd.VerifRun(p.Cfg, p.EarlyExit, 20*time.Second)
+		wd.Stop()
 		p.Seconds = time.Since(t0).Seconds()
 		// give late goroutines of the play (drain loops) a moment, so that a
 		// report is attributed to the play that caused it
